@@ -237,7 +237,9 @@ func runC18(o *hx.Out, r *hx.Rand, thorough bool) {
 	makers := []maker{
 		{1, false, "grpchantesting.Message", func() interface{} { return randMsg() }},
 		{2, false, "HttpTrailer", func() interface{} { return randTrailer() }},
-		{3, false, "StringValue", func() interface{} { return wrapperspb.String(r.Pick([]string{"abc", "x", "hello world", "\u00e9t\u00e9"})) }},
+		{3, false, "StringValue", func() interface{} {
+			return wrapperspb.String(r.Pick([]string{"abc", "x", "hello world", "\u00e9t\u00e9"}))
+		}},
 		{4, false, "BytesValue", func() interface{} { return wrapperspb.Bytes(rb(1, 9)) }},
 		{5, false, "Any", func() interface{} { return randAny() }},
 		{6, false, "Empty+unknown", func() interface{} { e := &emptypb.Empty{}; e.ProtoReflect().SetUnknown(unknown()); return e }},
